@@ -105,7 +105,8 @@ class BaseFiles(Generic[Interface]):
             if not if_modified_since:
                 raise ValueError("Empty date value")
             modified_time = parsedate_to_datetime(if_modified_since).timestamp()
-        except ValueError:
+        except (ValueError, OverflowError):
+            # OverflowError: a number in the date too large for a C integer
             return False
 
         return int(last_modified) <= int(modified_time)
